@@ -779,6 +779,63 @@ async fn app_scenario(a: &ShardArgs, idx: u64) {
     let mut hist = vec![];
     for _ in 0..n {
         seq = (seq + 1) & 15;
+        if r.chance(1, 6) {
+            // one application fragment whose transport segments come from two link sources: a valid DIRECT_OPERATE of 60
+            // analog outputs, cut in two segments, one sent by a foreign master and one by the configured master. Whatever
+            // the configuration, a fragment is assembled from one source only: nothing is executed, nothing is answered
+            let mut b = ra::B::request(ra::F_DIRECT_OPERATE, seq);
+            let items: Vec<(u16, Vec<u8>)> = (0..60u16).map(|i| (i, vec![(i & 0x7F) as u8, 0, 0])).collect();
+            b = b.prefixed16(41, 2, &items);
+            let frag = b.done();
+            let segs = crate::verif::refcodec::transport::segment(&frag, r.below(64) as u8);
+            let foreign_first = r.bool();
+            let mut wire = vec![];
+            for (k, sgm) in segs.iter().enumerate() {
+                let src = if (k == 0) == foreign_first { 7u16 } else { cfg.master_addr };
+                wire.extend(rl::Frame::new(0xC4, cfg.out_addr, src, sgm).encode());
+            }
+            hist.push(format!(
+                "mixed sources (foreign master sends the {} segment) DIRECT_OPERATE of 60 objects, {} segments",
+                if foreign_first { "first" } else { "last" },
+                segs.len()
+            ));
+            sim.send_bytes(&wire, &[]);
+            settle().await;
+            let rx = sim.collect();
+            let evs = sim.mock.take();
+            out::eval(1);
+            let side: Vec<String> = evs
+                .iter()
+                .filter(|(_, e)| e.is_side_effect())
+                .map(|(_, e)| format!("{e:?}"))
+                .collect();
+            let answered = rx.iter().any(|x| {
+                matches!(x, Rx::Fragment { bytes, .. } if bytes.len() >= 2 && bytes[1] == ra::F_RESPONSE)
+            });
+            if !side.is_empty() || answered {
+                out::violation(
+                    P,
+                    "C07.app_mixed_sources",
+                    &format!("{}|{state}", if foreign_first { "foreign-first" } else { "foreign-last" }),
+                    J::obj(vec![
+                        ("why", J::s(format!("a fragment whose segments came from two link sources was {}: {side:?}", if side.is_empty() { "answered" } else { "executed" }))),
+                        ("state", J::s(state)),
+                        ("history", J::arr(hist.iter().cloned())),
+                        ("config", cfg.to_json()),
+                    ]),
+                    J::obj(vec![
+                        ("check", J::s("c07")),
+                        ("seed", J::U(a.seed)),
+                        ("shard", J::U(a.shard)),
+                        ("nshards", J::U(a.nshards)),
+                        ("scenario", J::U(idx)),
+                    ]),
+                );
+            } else {
+                out::count("mixed_source_fragment_ignored", 1);
+            }
+            continue;
+        }
         let (frag, kind) = app_fragment(&mut r, seq);
         let (who, src, dest) = match r.below(6) {
             0 => ("configured-master", cfg.master_addr, cfg.out_addr),
